@@ -269,7 +269,43 @@ def load_world():
 
     w.Factory = ModelEKOFactory
     w.man.EKO = ModelEKOFactory
+    w.state_modules = [w.mat, w.com, w.rec, w.ops, w.man, w.items, w.struct, w.inv, w.runcards]
+    snapshot_state(w)
     return w
+
+
+def snapshot_state(w):
+    """remember the module-level mutable containers of the analysed modules as they are in a fresh process"""
+    if getattr(snapshot_state, "snap", None) is None:
+        snap = {}
+        for mod in w.state_modules:
+            for name, val in list(vars(mod).items()):
+                if not name.startswith("__") and isinstance(val, (dict, list, set)):
+                    snap[(mod.__name__, name)] = (val, type(val)(val))
+        snapshot_state.snap = snap
+    w.snap = snapshot_state.snap
+
+
+def fresh_process_state(w):
+    """every path of the exploration starts from the state of a fresh interpreter: module-level containers are restored and
+    memoising wrappers (functools caches) are cleared; state then accumulates only through the calls of the run itself"""
+    for (_mod, _name), (obj, content) in w.snap.items():
+        obj.clear()
+        if isinstance(obj, dict):
+            obj.update(content)
+        elif isinstance(obj, list):
+            obj.extend(content)
+        else:
+            obj.update(content)
+    for mod in w.state_modules:
+        for name, val in list(vars(mod).items()):
+            if name.startswith("__"):
+                continue
+            if isinstance(val, (dict, list, set)) and (mod.__name__, name) not in w.snap:
+                val.clear()  # a container that did not exist when the module was first seen by this process
+            cc = getattr(val, "cache_clear", None)
+            if callable(cc):
+                cc()
 
 
 def _copy_op(w, op):
@@ -319,14 +355,15 @@ class StubParts:
         return op
 
 
-def make_cards(w, nf0, targets, ratios="sym", coincide=(), ordered=True):
+def make_cards(w, nf0, targets, ratios="sym", coincide=(), ordered=True, names=("m", "k", "mu0", "t")):
     """symbolic cards. targets: list of nf (or None); returns (theory, operator, W, mu0, ts).
     coincide: list of ('t0','w2') / ('t1','t0') / ('mu0','w1') pairs forcing a scale to be another one."""
-    ms = [SR.var("m%d" % q) for q in (4, 5, 6)]
+    nm, nk, nmu, nt_ = names
+    ms = [SR.var("%s%d" % (nm, q)) for q in (4, 5, 6)]
     for m_ in ms:
         assume(m_, ">0")
     if ratios == "sym":
-        ks = [SR.var("k%d" % q) for q in (4, 5, 6)]
+        ks = [SR.var("%s%d" % (nk, q)) for q in (4, 5, 6)]
         for k_ in ks:
             assume(k_, ">0")
     else:
@@ -345,14 +382,19 @@ def make_cards(w, nf0, targets, ratios="sym", coincide=(), ordered=True):
         assume(v, ">0")
         return v
 
-    mu0 = named["mu0"] = scale("mu0")
+    mu0 = named["mu0"] = scale(nmu)
     ts = []
     for i, _nf in enumerate(targets):
-        t = named["t%d" % i] = scale("t%d" % i)
+        t = named["t%d" % i] = scale("%s%d" % (nt_, i))
         ts.append(t)
     R.finite_below_inf(mu0, *(ts + W))
-    theory = NS(heavy=NS(masses=[NS(value=m_) for m_ in ms], masses_scheme=w.POLE, matching_ratios=list(ks)))
-    operator = NS(mu20=mu0, init=(None, nf0), evolgrid=[(t, nf) for t, nf in zip(ts, targets)], configs=NS(evolution_method=w.METHOD))
+    # duck-typed cards carrying the fields of the real TheoryCard / OperatorCard (so that code reading more of them still runs)
+    theory = NS(order=(1, 0), xif=1.0, n3lo_ad_variation=(0,) * 7, use_fhmruvv=True, matching_order=(0, 0),
+                couplings=NS(alphas=0.118, alphaem=0.007496252, ref=(91.2, 5), em_running=False),
+                heavy=NS(masses=[NS(value=m_, scale=None) for m_ in ms], masses_scheme=w.POLE, matching_ratios=list(ks)))
+    operator = NS(mu20=mu0, init=(None, nf0), evolgrid=[(t, nf) for t, nf in zip(ts, targets)],
+                  configs=NS(evolution_method=w.METHOD, ev_op_iterations=1, ev_op_max_order=(10, 0), polarized=False, time_like=False,
+                             n_integration_cores=1, scvar_method=None, inversion_method=None, interpolation_polynomial_degree=1, interpolation_is_log=True))
     return theory, operator, W, mu0, ts
 
 
@@ -418,6 +460,71 @@ def _same_header(w, ha, hb):
     return ha.hq == hb.hq and bool(ha.inverse) == bool(hb.inverse) and same(ha.scale, hb.scale)
 
 
+def _verify(w, eko, stub, W, mu0, ts, nf0, targets, dec, with_error=False):
+    """all obligations of one solve: needed parts stored once, each target's operator (and error) is the ordered product"""
+    # ---- independent description of what is needed -------------------------------------------
+    needed = []  # oracle elements over all targets
+    per_target = []
+    for t, nf in zip(ts, targets):
+        els = path_elements(W, (mu0, nf0), (t, nf))
+        per_target.append(els)
+        needed.extend(els)
+    ev_writes = eko.parts.writes
+    ma_writes = eko.parts_matching.writes
+    # ---- every part computed and stored exactly once -----------------------------------------
+    ok_once = True
+    why = []
+    allw = [("evolve", h, op) for h, op in ev_writes] + [("match", h, op) for h, op in ma_writes]
+    for (ka, ha, _oa), (kb, hb, _ob) in itertools.combinations(allw, 2):
+        if ka == kb and _same_header(w, ha, hb):
+            ok_once = False
+            why.append("stored twice: %r" % (ha,))
+    for el in needed:
+        pool = ev_writes if el[0] == "seg" else ma_writes
+        n = sum(1 for h, _op in pool if _seg_matches(w, h, el))
+        if n != 1:
+            ok_once = False
+            why.append("needed element %r stored %d times" % (el[:1] + el[3:], n))
+    for kind, h, _op in allw:
+        if not any(_seg_matches(w, h, el) for el in needed):
+            ok_once = False
+            why.append("stored but not needed: %r" % (type(h).__name__,))
+    dec(z3.BoolVal(ok_once), "every needed part is stored exactly once and nothing else is", "recipes._create:once")
+    calls_ok = len(stub.calls) == len(allw) and all(any(_same_entries(op.operator, op2.operator) for _k2, _h2, op2 in allw) for _k, _r, op in stub.calls)
+    # the archive holds what was computed (nothing altered the parts between computation and storage)
+    on_disk = [op for _h, op in eko.parts.disk] + [op for _h, op in eko.parts_matching.disk]
+    calls_ok = calls_ok and len(on_disk) == len(stub.calls) and all(
+        any(_same_entries(op.operator, d.operator) and _same_entries(op.error, d.error) for d in on_disk) for _k, _r, op in stub.calls)
+    kinds_ok = all((k == "evolve") == isinstance(r, w.items.Evolution) for k, r, _o in stub.calls)
+    dec(z3.BoolVal(calls_ok and kinds_ok), "each part is computed once, evolutions by evolve and matchings by match", "managed.solve:once")
+    # ---- product --------------------------------------------------------------------------------
+    for (t, nf), els in zip(zip(ts, targets), per_target):
+        stored = [op for h, op in eko.operators.disk if isinstance(h, w.items.Target) and (h.nf == nf) and same(h.scale, t)]
+        if len(stored) != 1:
+            dec(z3.BoolVal(False), "exactly one operator stored for target nf=%s" % nf, "managed.solve:target")
+            continue
+        tens = []
+        missing = False
+        for el in els:
+            pool = eko.parts.disk if el[0] == "seg" else eko.parts_matching.disk
+            cands = [op for h, op in pool if _seg_matches(w, h, el)]
+            if not cands:
+                missing = True
+                break
+            tens.append(cands)
+        if missing:
+            dec(z3.BoolVal(False), "all parts of the path of target nf=%s are in the archive" % nf, "operators.retrieve:parts")
+            continue
+        goal = z3.Or([tensors_equal(stored[0].operator, product_later_left([c.operator for c in choice])) for choice in itertools.product(*tens)])
+        dec(goal, "operator of target nf=%s == ordered product (later on the left) of the %d parts of its path" % (nf, len(els)),
+            "operators.join:product")
+        if with_error:
+            goal = z3.Or([tensors_equal(stored[0].error, oracle_join(list(choice))[1]) for choice in itertools.product(*tens)])
+            dec(goal, "error of target nf=%s == |A| dB + dA |B| accumulated along its path" % nf, "operators._dotop:error")
+        else:
+            dec(z3.BoolVal(stored[0].error is None), "no error array when the parts have none", "operators._dotop:error-none")
+
+
 # ---------------------------------------------------------------------------
 # cases
 # ---------------------------------------------------------------------------
@@ -433,6 +540,7 @@ def case_solve(log, nf0, targets, shape=(2, 1, 2, 1), ratios="sym", coincide=(),
                                        "" if ordered else " matching scales in any order", " parts with errors" if with_error else "")
 
     def run():
+        fresh_process_state(w)
         theory, operator, W, mu0, ts = make_cards(w, nf0, targets, ratios, coincide, ordered)
         stub = StubParts(w, shape, with_error=with_error)
         w.man.parts = stub
@@ -449,72 +557,68 @@ def case_solve(log, nf0, targets, shape=(2, 1, 2, 1), ratios="sym", coincide=(),
                 v.model = pt or None
             decide(v, key, (MOD, "replay_solve", kw), sampler=lambda rng: _sampler(rng, len(targets)), nontrivial=sym)
 
-        # ---- independent description of what is needed -------------------------------------------
-        needed = []  # oracle elements over all targets
-        per_target = []
-        for t, nf in zip(ts, targets):
-            els = path_elements(W, (mu0, nf0), (t, nf))
-            per_target.append(els)
-            needed.extend(els)
-        ev_writes = eko.parts.writes
-        ma_writes = eko.parts_matching.writes
-        # ---- every part computed and stored exactly once -----------------------------------------
-        ok_once = True
-        why = []
-        allw = [("evolve", h, op) for h, op in ev_writes] + [("match", h, op) for h, op in ma_writes]
-        for (ka, ha, _oa), (kb, hb, _ob) in itertools.combinations(allw, 2):
-            if ka == kb and _same_header(w, ha, hb):
-                ok_once = False
-                why.append("stored twice: %r" % (ha,))
-        for el in needed:
-            pool = ev_writes if el[0] == "seg" else ma_writes
-            n = sum(1 for h, _op in pool if _seg_matches(w, h, el))
-            if n != 1:
-                ok_once = False
-                why.append("needed element %r stored %d times" % (el[:1] + el[3:], n))
-        for kind, h, _op in allw:
-            if not any(_seg_matches(w, h, el) for el in needed):
-                ok_once = False
-                why.append("stored but not needed: %r" % (type(h).__name__,))
-        dec(z3.BoolVal(ok_once), "every needed part is stored exactly once and nothing else is", "recipes._create:once")
-        calls_ok = len(stub.calls) == len(allw) and all(any(_same_entries(op.operator, op2.operator) for _k2, _h2, op2 in allw) for _k, _r, op in stub.calls)
-        # the archive holds what was computed (nothing altered the parts between computation and storage)
-        on_disk = [op for _h, op in eko.parts.disk] + [op for _h, op in eko.parts_matching.disk]
-        calls_ok = calls_ok and len(on_disk) == len(stub.calls) and all(
-            any(_same_entries(op.operator, d.operator) and _same_entries(op.error, d.error) for d in on_disk) for _k, _r, op in stub.calls)
-        kinds_ok = all((k == "evolve") == isinstance(r, w.items.Evolution) for k, r, _o in stub.calls)
-        dec(z3.BoolVal(calls_ok and kinds_ok), "each part is computed once, evolutions by evolve and matchings by match", "managed.solve:once")
-        # ---- product --------------------------------------------------------------------------------
-        for (t, nf), els in zip(zip(ts, targets), per_target):
-            stored = [op for h, op in eko.operators.disk if isinstance(h, w.items.Target) and (h.nf == nf) and same(h.scale, t)]
-            if len(stored) != 1:
-                dec(z3.BoolVal(False), "exactly one operator stored for target nf=%s" % nf, "managed.solve:target")
-                continue
-            tens = []
-            missing = False
-            for el in els:
-                pool = eko.parts.disk if el[0] == "seg" else eko.parts_matching.disk
-                cands = [op for h, op in pool if _seg_matches(w, h, el)]
-                if not cands:
-                    missing = True
-                    break
-                tens.append(cands)
-            if missing:
-                dec(z3.BoolVal(False), "all parts of the path of target nf=%s are in the archive" % nf, "operators.retrieve:parts")
-                continue
-            goal = z3.Or([tensors_equal(stored[0].operator, product_later_left([c.operator for c in choice])) for choice in itertools.product(*tens)])
-            dec(goal, "operator of target nf=%s == ordered product (later on the left) of the %d parts of its path" % (nf, len(els)),
-                "operators.join:product")
-            if with_error:
-                goal = z3.Or([tensors_equal(stored[0].error, oracle_join(list(choice))[1]) for choice in itertools.product(*tens)])
-                dec(goal, "error of target nf=%s == |A| dB + dA |B| accumulated along its path" % nf, "operators._dotop:error")
-            else:
-                dec(z3.BoolVal(stored[0].error is None), "no error array when the parts have none", "operators._dotop:error-none")
+        _verify(w, eko, stub, W, mu0, ts, nf0, targets, dec, with_error)
         log.twin("domain " + tag)
         log.collect_ctx()
 
     _r, pm = explore(run, max_paths=max_paths)
     log.path_stats(pm)
+
+
+def case_twice(log, nf0, targets, vary, shape=(2, 1, 2, 1), max_paths=3000):
+    """two solve() calls in ONE process (no reset in between), the second with cards that differ from the first in `vary`
+    ('ratios': same masses, other matching ratios; 'masses': other masses, same ratios; 'init': other initial and target scales).
+    A solve is a function of its cards: every obligation must hold for both runs."""
+    w = load_world()
+    log.encode(w.man.solve, w.rec.create, w.rec._create, w.rec._elements, w.ops.retrieve, w.ops._parts, w.ops.join, w.com.atlas, w.runcards.masses,
+               w.mat.Atlas.__init__, w.mat.Atlas.matched_path)
+    decide = Decider(log)
+    kw = {"nf0": nf0, "targets": list(targets), "vary": vary}
+    fam = {"ratios": ("m", "kb", "mu0", "t"), "masses": ("mb", "k", "mu0", "t"), "init": ("m", "k", "mub", "tb")}[vary]
+
+    def run():
+        fresh_process_state(w)
+        for label, names in (("first run", ("m", "k", "mu0", "t")), ("second run in the same process, other %s" % vary, fam)):
+            theory, operator, W, mu0, ts = make_cards(w, nf0, targets, "sym", (), True, names)
+            stub = StubParts(w, shape)
+            w.man.parts = stub
+            del w.Factory.built[:]
+            w.man.solve(theory, operator, "/nonexistent/eko.tar")
+            eko = w.Factory.built[0]
+            tag = "[nf0=%s targets=%s, %s]" % (nf0, list(targets), label)
+
+            def dec(goal, what, key, tag=tag):
+                sym = R.touched()
+                v = prove_formula(goal, what + " " + tag)
+                if not v.holds and not v.model:
+                    _rs, pt = S.reachable()
+                    v.model = pt or None
+                decide(v, key, (MOD, "replay_twice", kw), sampler=_sampler_twice, nontrivial=sym)
+
+            _verify(w, eko, stub, W, mu0, ts, nf0, targets, dec)
+        log.twin("domain [nf0=%s targets=%s two runs]" % (nf0, list(targets)))
+        log.collect_ctx()
+
+    _r, pm = explore(run, max_paths=max_paths)
+    log.path_stats(pm)
+
+
+def _sampler_twice(rng):
+    def three(lo, hi):
+        return sorted(rnd(rng, lo, hi, 4) for _ in range(3))
+
+    m = three(1, 12)
+    mb = three(1, 12)
+    p = {"mu0": rnd(rng, 1, 400, 1), "mub0": rnd(rng, 1, 400, 1)}
+    for i, q in enumerate((4, 5, 6)):
+        p["m%d" % q] = m[i] + i
+        p["mb%d" % q] = mb[i] + i
+        p["k%d" % q] = rng.choice([Fraction(1), Fraction(3, 2), Fraction(2)])
+        p["kb%d" % q] = rng.choice([Fraction(1, 2), Fraction(3, 4), Fraction(5, 4)])
+    for i in range(3):
+        p["t%d" % i] = rnd(rng, 1, 600, 1)
+        p["tb%d" % i] = rnd(rng, 1, 600, 1)
+    return p
 
 
 def case_join(log, n, shape=(2, 1, 2, 1), none_at=None):
@@ -633,7 +737,9 @@ def _scales_from_point(point, nt, coincide, ordered=True):
     return lin
 
 
-def replay_solve(point, nf0, targets, coincide=(), ordered=True, with_error=False):
+def _real_run(masses, ratios, mu0, tlin, nf0, targets, with_error=False):
+    """REAL managed.solve on a temp archive (linear masses / ratios / scales given), numerical parts replaced by deterministic
+    stand-ins depending on the full recipe; returns the list of deviations from the independently written path."""
     import pathlib
     import shutil
     import tempfile
@@ -645,20 +751,15 @@ def replay_solve(point, nf0, targets, coincide=(), ordered=True, with_error=Fals
     from eko.runner import managed, parts
     from ekobox import cards
 
-    nt = len(targets)
-    lin = _scales_from_point(point, nt, [tuple(c) for c in coincide], ordered)
-    if lin is None:
-        return None
     tc = cards.example.theory()
     oc = cards.example.operator()
     oc.xgrid = interpolation.XGrid([0.5, 1.0])
     oc.configs.interpolation_polynomial_degree = 1
-    ks = [1.0, 2.0, 0.5]
-    for q_, n, k in zip("cbt", ("w1", "w2", "w3"), ks):
+    for q_, m_, k in zip("cbt", masses, ratios):
         setattr(tc.heavy.matching_ratios, q_, k)
-        getattr(tc.heavy.masses, q_).value = lin[n] / k
-    oc.init = (lin["mu0"], nf0)
-    oc.mugrid = [(lin["t%d" % i], nf) for i, nf in enumerate(targets)]
+        getattr(tc.heavy.masses, q_).value = m_
+    oc.init = (mu0, nf0)
+    oc.mugrid = [(t_, nf) for t_, nf in zip(tlin, targets)]
     nfl = len(br.flavor_basis_pids)
     shape = (nfl, 2, nfl, 2)  # (flavour, x, flavour, x) as the real parts
     calls = []
@@ -692,13 +793,13 @@ def replay_solve(point, nf0, targets, coincide=(), ordered=True, with_error=Fals
         parts.evolve, parts.match = old
         shutil.rmtree(d, ignore_errors=True)
     # ---- oracle ---------------------------------------------------------------------------------
-    walls = [k * k * (lin[n] / k) ** 2 for n, k in zip(("w1", "w2", "w3"), ks)]
-    mu20 = lin["mu0"] ** 2
+    walls = [k * k * m_ ** 2 for m_, k in zip(masses, ratios)]
+    mu20 = mu0 ** 2
     bad = []
     needed = set()
     N = 2 * nfl
-    for i, nf in enumerate(targets):
-        t2 = lin["t%d" % i] ** 2
+    for t_, nf in zip(tlin, targets):
+        t2 = t_ ** 2
         els = path_elements(walls, (mu20, nf0), (t2, nf))
         prod = np.eye(N)
         mats = []
@@ -731,8 +832,52 @@ def replay_solve(point, nf0, targets, coincide=(), ordered=True, with_error=Fals
     if set(done) != needed:
         bad.append("computed parts %r differ from the needed parts: not needed %r, never computed %r (evolution = (a, b, nf, cliff))"
                    % (sorted(set(done), key=str), sorted(set(done) - needed, key=str), sorted(needed - set(done), key=str)))
+    return bad, "walls=%r origin=(%r,%r) targets=%r" % (walls, mu20, nf0, [(t_ ** 2, nf) for t_, nf in zip(tlin, targets)])
+
+
+def replay_solve(point, nf0, targets, coincide=(), ordered=True, with_error=False):
+    nt = len(targets)
+    lin = _scales_from_point(point, nt, [tuple(c) for c in coincide], ordered)
+    if lin is None:
+        return None
+    ks = [1.0, 2.0, 0.5]
+    bad, where = _real_run([lin[n] / k for n, k in zip(("w1", "w2", "w3"), ks)], ks, lin["mu0"], [lin["t%d" % i] for i in range(nt)], nf0, targets, with_error)
     if bad:
-        return {"detail": "walls=%r origin=(%r,%r) targets=%r: %s" % (walls, mu20, nf0, [(lin["t%d" % i] ** 2, nf) for i, nf in enumerate(targets)], "; ".join(bad))}
+        return {"detail": "%s: %s" % (where, "; ".join(bad))}
+    return None
+
+
+def replay_twice(point, nf0, targets, vary):
+    """two REAL managed.solve runs in one interpreter, the second one with cards differing in `vary`"""
+    nt = len(targets)
+
+    def val(name, dflt):
+        v = R.point_value(point, name, dflt)
+        return None if v is None or not (1e-6 < v < 1e6) else v
+
+    A = dict(m=[val("m%d" % q, d) for q, d in zip((4, 5, 6), (1.5, 4.5, 170.0))], k=[val("k%d" % q, d) for q, d in zip((4, 5, 6), (1.0, 1.0, 1.0))],
+             mu0=val("mu0", 1.2), t=[val("t%d" % i, 10.0 + 50 * i) for i in range(nt)])
+    B = dict(A)
+    if vary == "ratios":
+        B["k"] = [val("kb%d" % q, d) for q, d in zip((4, 5, 6), (2.5, 0.6, 1.5))]
+    elif vary == "masses":
+        B["m"] = [val("mb%d" % q, d) for q, d in zip((4, 5, 6), (2.5, 6.0, 190.0))]
+    else:
+        B["mu0"] = val("mub0", 3.3)
+        B["t"] = [val("tb%d" % i, 30.0 + 70 * i) for i in range(nt)]
+    out = []
+    for name, c in (("first run", A), ("second run in the same process", B)):
+        if any(x is None for x in c["m"] + c["k"] + c["t"] + [c["mu0"]]):
+            return None
+        walls = [k * k * m_ * m_ for m_, k in zip(c["m"], c["k"])]
+        if not walls[0] < walls[1] < walls[2]:
+            return None
+        # scales are squared in the symbolic run; the cards take linear ones
+        bad, where = _real_run(c["m"], c["k"], c["mu0"] ** 0.5, [x ** 0.5 for x in c["t"]], nf0, targets)
+        if bad:
+            out.append("%s (%s): %s" % (name, where, "; ".join(bad)))
+    if out:
+        return {"detail": " | ".join(out)}
     return None
 
 
@@ -794,6 +939,8 @@ def main():
         "error rule: join of 2..%d operators with symbolic errors >= 0, one input without error; join must leave its inputs unchanged; "
         "%d multi-target solve configurations whose parts carry errors (operator and error of every target decided)" % (4 if thorough else 3, 8 if thorough else 3),
         "%d configurations with the three matching scales in any order (explicit target nf)" % (10 if thorough else 4),
+        "state across calls: %d configurations of two solve() calls in one process whose cards differ in the matching ratios / the masses / the initial and "
+        "target scales (all symbolic); every path of the exploration starts from fresh module state (module-level containers restored, functools caches cleared)" % (9 if thorough else 4),
     ]
     chk.out_of_claim = [
         "archive round trip (npy/lz4/tar/yaml, file names derived from hash(header)): the Inventory disk side is a header->content model",
@@ -840,6 +987,12 @@ def main():
         unordered += [(3, (5, 4)), (6, (4, 5)), (4, (3, 3)), (5, (6, 4, 3)), (3, (4,)), (5, (4,))]
     for nf0, tg in unordered:
         chk.case("solve.unordered.%s-%s" % (nf0, ",".join(map(str, tg))), case_solve, nf0=nf0, targets=list(tg), ratios="fixed", ordered=False)
+    # state across calls in one process: a second solve with other cards must not see anything of the first
+    twice = [(3, (5,), "ratios"), (5, (3, 4), "ratios"), (4, (6,), "masses"), (3, (4,), "init")]
+    if thorough:
+        twice += [(6, (3,), "ratios"), (4, (5, 6), "ratios"), (3, (6, 4), "masses"), (5, (4,), "init"), (4, (None,), "ratios")]
+    for nf0, tg, vary in twice:
+        chk.case("twice.%s.%s-%s" % (vary, nf0, ",".join(map(str, tg))), case_twice, nf0=nf0, targets=list(tg), vary=vary)
     # parts carrying errors, targets sharing parts (in particular a matching, which stays cached between targets)
     witherr = [(3, (4, 4)), (5, (4, 3)), (4, (5, 6))]
     if thorough:
